@@ -207,6 +207,59 @@ impl Position {
     }
 }
 
+impl Position {
+    pub fn encode(&self) -> Vec<u8> {
+        let mut o = account_disc("Position").to_vec();
+        o.extend_from_slice(self.whirlpool.as_ref());
+        o.extend_from_slice(self.position_mint.as_ref());
+        o.extend_from_slice(&self.liquidity.to_le_bytes());
+        o.extend_from_slice(&self.tick_lower_index.to_le_bytes());
+        o.extend_from_slice(&self.tick_upper_index.to_le_bytes());
+        o.extend_from_slice(&self.fee_growth_checkpoint_a.to_le_bytes());
+        o.extend_from_slice(&self.fee_owed_a.to_le_bytes());
+        o.extend_from_slice(&self.fee_growth_checkpoint_b.to_le_bytes());
+        o.extend_from_slice(&self.fee_owed_b.to_le_bytes());
+        for r in &self.reward_infos {
+            o.extend_from_slice(&r.growth_inside_checkpoint.to_le_bytes());
+            o.extend_from_slice(&r.amount_owed.to_le_bytes());
+        }
+        debug_assert_eq!(o.len(), POSITION_LEN);
+        o
+    }
+}
+impl Pool {
+    pub fn encode(&self) -> Vec<u8> {
+        let mut o = account_disc("Whirlpool").to_vec();
+        o.extend_from_slice(self.whirlpools_config.as_ref());
+        o.push(self.bump);
+        o.extend_from_slice(&self.tick_spacing.to_le_bytes());
+        o.extend_from_slice(&self.fee_tier_index.to_le_bytes());
+        o.extend_from_slice(&self.fee_rate.to_le_bytes());
+        o.extend_from_slice(&self.protocol_fee_rate.to_le_bytes());
+        o.extend_from_slice(&self.liquidity.to_le_bytes());
+        o.extend_from_slice(&self.sqrt_price.to_le_bytes());
+        o.extend_from_slice(&self.tick_current_index.to_le_bytes());
+        o.extend_from_slice(&self.protocol_fee_owed_a.to_le_bytes());
+        o.extend_from_slice(&self.protocol_fee_owed_b.to_le_bytes());
+        o.extend_from_slice(self.token_mint_a.as_ref());
+        o.extend_from_slice(self.token_vault_a.as_ref());
+        o.extend_from_slice(&self.fee_growth_global_a.to_le_bytes());
+        o.extend_from_slice(self.token_mint_b.as_ref());
+        o.extend_from_slice(self.token_vault_b.as_ref());
+        o.extend_from_slice(&self.fee_growth_global_b.to_le_bytes());
+        o.extend_from_slice(&self.reward_last_updated_timestamp.to_le_bytes());
+        for r in &self.reward_infos {
+            o.extend_from_slice(r.mint.as_ref());
+            o.extend_from_slice(r.vault.as_ref());
+            o.extend_from_slice(&r.extension);
+            o.extend_from_slice(&r.emissions_per_second_x64.to_le_bytes());
+            o.extend_from_slice(&r.growth_global_x64.to_le_bytes());
+        }
+        debug_assert_eq!(o.len(), POOL_LEN);
+        o
+    }
+}
+
 #[derive(Clone, Copy, Debug, Default, PartialEq, Eq)]
 pub struct Tick {
     pub initialized: bool,
